@@ -309,6 +309,18 @@ pub fn typed_programs(max_size: usize) -> Rc<Vec<(Ty, Rc<S>)>> {
     })
 }
 
+// Number of programs with at most `size` nodes (they come first in the list).
+pub fn typed_programs_count(size: usize) -> usize {
+    let mut g = typed::Gen::new(Config::standard());
+    let mut n = 0;
+    for k in 1..=size {
+        for goal in typed::goals() {
+            n += g.terms(&vec![], &goal, k).len();
+        }
+    }
+    n
+}
+
 pub fn typed_size(tier: Tier) -> usize {
     tier.pick(6, 7)
 }
